@@ -28,6 +28,9 @@ CHECKS = {
  "C12": ("engine-b", "model_checking", B,
          "for every design of the F_hier family every hierarchical wire, pin, cable and port occurrence (and every wire element over all its occurrences) is the start of get_hwires / get_hcables with selections ALL, INSIDE, OUTSIDE, BOTH and of get_hpins; result sets compared with the equivalence classes of an independent union-find elaboration",
          "bounded as C08; the top instance is not itself instanced"),
+ "C11": ("engine-b", "model_checking", B,
+         "for every design (F_hier incl. shared definitions at one/two depths, wire-only cells, bus bundles, unnamed items) the five get_h* functions and get_all_hrefs_of_item are run from every root kind with recursive on/off and compared with an independent enumeration of occurrences (no omission, no duplicate, valid, correct name, same object for the same path); then every single breaking edit is applied and every previously obtained reference is re-judged (is_valid, is_unique) against a fresh elaboration",
+         "bounded as C08; root semantics taken from the docstrings; is_unique judged for instance references only"),
 }
 m = {
  "version": 1,
